@@ -84,7 +84,8 @@ class C13(PropBase):
             "decision-tree dumps against the same model. "
             "R cases: the entries (name, soft, hard, unit) of the proc_limits array against the model; E: cert_subject per module (certificate names may repeat in the JSON object); "
             "L: lsb_release fields, text line, pid, microcode; U: frames[0].unloaded_modules (JSON) and the `(unloaded name@off|off)` groups (text) of threads whose instruction pointer "
-            "lies in 0..7 overlapping unloaded modules (names repeated, range ends, a bad size that makes the reader drop the stream) against C13.Unloaded.frame_offsets. Non-trivial = at least one thread processed; "
+            "lies in 0..7 overlapping unloaded modules (names repeated, range ends, a bad size that makes the reader drop the stream) against C13.Unloaded.frame_offsets; B: the source_register sequence of crash_info.possible_bit_flips for amd64 crashes on instructions with one or two operand registers "
+            "(each a single bit, so every register has a candidate) against the model's BTreeSet of the operand registers. Non-trivial = at least one thread processed; "
             "distinct = distinct case lines")
     trusted_base = [
         "Coq 8.16.1 kernel (vm_compute only in witnesses / Examples)",
@@ -154,8 +155,14 @@ class C13(PropBase):
                 "MEMBERS of the JSON object incl. repeated names (c13_cert_pipeline_order_independent, no NoDup hypothesis) and its closed form: the greatest certificate name that lists the "
                 "module (c13_cert_greatest_wins); the proc_limits entries with soft / hard / unit, any formatter (c13_limits_entries_order_independent); every iteration over a BTreeMap / "
                 "BTreeSet and every field of such a type is an enumerated, classified site (c13_ordered_sites_modelled); the site scan now reads breakpad-symbols/src/http.rs and "
-                "minidump-unwind/src/symbols/debuginfo.rs (feature-gated: four more cells, classified SupplierSide / FeatureGatedProvider, no hash iteration, no combinator). "
-                "Compared with the real code on generated cases: U (unloaded-module map, JSON and text), A (adaptive walks on one real Symbolizer under explicit poll schedules: results, answer logs, "
+                "minidump-unwind/src/symbols/debuginfo.rs (feature-gated: four more cells, classified SupplierSide / FeatureGatedProvider, no hash iteration, no combinator) and "
+                "minidump/src/context.rs (one hash site: the trait method CpuContext::valid_registers hands out the validity HashSet's iterator for Some(..); never called that way inside the "
+                "workspace — PublicApiOnly; calculate_heuristics' own loop is a count and an any: c13_register_scan_order_independent); crash_info.possible_bit_flips lists the "
+                "register-derived candidates in ascending register order whatever order the operands contributed them in (c13_bitflip_candidates_order_independent; through a hash container "
+                "refuted: c13_bitflip_candidates_hash_refuted); the seven pieces of code these models stand for (certificate fold, unloaded-module block, stream fallback, modules_at_address, "
+                "memory_range, the reader's size guard, the register loop of check_for_bitflips) are regenerated as text from the source and proved equal to the text the model was written "
+                "against (c13_pinned_code_modelled). "
+                "Compared with the real code on generated cases: U (unloaded-module map, JSON and text), B (source registers of possible_bit_flips), A (adaptive walks on one real Symbolizer under explicit poll schedules: results, answer logs, "
                 "supplier call order, stats, counters), P (the real processor on synthetic amd64 dumps whose threads ARE decision trees — CFI cell when the module's "
                 "symbols load, frame-pointer cell otherwise — against the adaptive model under round-robin polling: per-thread module sequence, supplier call "
                 "order, stats, counters), Q (arm64 / arm CFI caller registers), R (now name, soft, hard, unit) / E (now with repeated certificate names) / L. Everything beyond these cores is checked by a direct oracle only: the same input processed "
